@@ -366,6 +366,10 @@ def _gen_plan(family, rng, tier):
                 continue
             d_entries.append((sid, 'VERIF SEQUENCE %06d' % sid, members))
             nreg_d[sid] = members
+        if len(d_entries) > 1 and rng.random() < 0.4:
+            # forward references inside one definition message: a sequence may name a member sequence that
+            # the same message defines further down
+            rng.shuffle(d_entries)
         a_entries = [('%03d' % rng.randint(200, 255), 'VERIF TABLE A LINE 1', 'LINE 2')
                      for _ in range(rng.choice([0, 1, 1, 2]))]
         dv = rng.choice(vs + [13])
